@@ -119,6 +119,15 @@ func abs64(x int64) int64 {
 	return x
 }
 
+// bit 1 of `via`: the side conditions of c14_check_eq_eval (lower_hyp, cont_ok) hold on this case by the
+// harness' evaluation with the real bytes.ToLower; the extracted model re-evaluates its own definition
+func hypBit(f flags) int {
+	if f.hypFail || f.contHit {
+		return 0
+	}
+	return 2
+}
+
 func (h *harn) count(t *rnode) {
 	w := h.c.W
 	t.walk(func(x *rnode) {
@@ -158,7 +167,7 @@ func (h *harn) check(base string, via int, t *rnode, ev hx.Sx) {
 	tb := newTables()
 	tb.addTree(t, ev)
 	h.count(t)
-	obs := h.c.Do(route(base, f), 0, hx.L(hx.I(via), t.sx(), ev, hx.Z(nominalNow), tb.sx()), f.resolves)
+	obs := h.c.Do(route(base, f), 0, hx.L(hx.I(via|hypBit(f)), t.sx(), ev, hx.Z(nominalNow), tb.sx()), f.resolves)
 	h.c.W.Count("decision_" + hx.String(obs))
 }
 
@@ -187,7 +196,7 @@ func (h *harn) seq(base string, via int, ts []*rnode, evs []hx.Sx, allowEsc bool
 		h.count(t)
 	}
 	h.c.W.Count("sequence_pairs")
-	h.c.Do(route(base, f), 1, hx.L(hx.I(via), hx.L(tsx...), hx.L(evs...), hx.Z(nominalNow), tb.sx()), f.resolves)
+	h.c.Do(route(base, f), 1, hx.L(hx.I(via|hypBit(f)), hx.L(tsx...), hx.L(evs...), hx.Z(nominalNow), tb.sx()), f.resolves)
 }
 
 func (h *harn) proc(base string, which int, t *rnode, mode string, invert bool, cs []cond, evs []hx.Sx) {
@@ -238,6 +247,10 @@ func (h *harn) proc(base string, which int, t *rnode, mode string, invert bool, 
 }
 
 func c14Gen(c *hmain.Ctx) {
+	// hx.Rng streams of consecutive seeds are one-draw shifts of each other (state = seed*gamma + c,
+	// step = +gamma) and re-align after any data-dependent number of draws; forking through the mixed
+	// output gives every seed an unrelated stream
+	c.R = c.R.Fork()
 	h := &harn{c: c, g: &gen{r: c.R}}
 	genExhaustive(h)
 	genTargeted(h)
